@@ -370,7 +370,26 @@ impl Property for P16 {
                                 return Err(format!("named access .{} for selector {:#x} gives a {} object", want[0], s, kind_name(&via)));
                             }
                         }
-                        // a named layer property the selector does not select yields null (here: after $n filled the cache)
+                        // a named layer property the selector does not select yields null (here: after $n filled the cache,
+                        // also when the selected layer is truncated and the cache holds its error object)
+                        if truncated && want != ["null"] {
+                            let parent = vm.get_inner(&po, depth - 1, 1).map_err(|e| e.msg)?;
+                            let layer_props: &[(P, &str)] = match level {
+                                0 | 1 => &[(P::Vlan, "vlan"), (P::Ipv4, "ipv4"), (P::Ipv6, "ipv6")],
+                                2 => &[(P::Udp, "udp"), (P::Tcp, "tcp"), (P::Ipv6, "ipv6")],
+                                _ => &[(P::Udp, "udp"), (P::Tcp, "tcp")],
+                            };
+                            for (prop, name) in layer_props {
+                                if want.contains(name) {
+                                    continue;
+                                }
+                                if let Ok(via) = vm.exec_prop_expr(parent.clone(), *prop as u8, None, 1) {
+                                    if kind_name(&via) != "null" {
+                                        return Err(format!("selector {:#x} at level {}, selected layer truncated: the unselected named property .{} gives a {} object after the selected layer was read", s, level, name, kind_name(&via)));
+                                    }
+                                }
+                            }
+                        }
                         if !truncated {
                             let parent = vm.get_inner(&po, depth - 1, 1).map_err(|e| e.msg)?;
                             let layer_props: &[(P, &str)] = match level {
